@@ -160,6 +160,7 @@ func runStreamProp(c *Ctx, id string) {
 	if id == "C04" {
 		runC04File(c)
 		runC04ReloadWindow(c)
+		runC04OpenWindow(c)
 	}
 	if id == "C05" {
 		runC04File(c) // the file backend rewrites the whole file: a save keeps the checkpoints it does not touch
